@@ -74,7 +74,7 @@ Fixpoint has_type (v : value) (t : ty) {struct v} : bool :=
     forallb (fun kv => has_type (fst kv) tk && has_type (snd kv) tv) kvs
     && (N.of_nat (length kvs) <? 2 ^ 64)
   | VVariant idx p, TEnum vs =>
-    (idx <? 2 ^ 32) &&
+    (idx <? 2 ^ 32) && (idx <? N.of_nat (length vs)) &&
     (fix pick (vs : list ty) (i : nat) : bool :=
        match vs, i with
        | [], _ => false
